@@ -133,8 +133,9 @@ def delivery(norm_end):
             return ("value", val)
         if reason == "ABORTED":
             return ("aborted",)
-        if isinstance(lexc, str) and lexc.startswith("foreign:") and cause in (None, "exception"):
-            return ("raised", lexc.split(":", 1)[1])   # an exception created by the library
+        if reason is None and isinstance(lexc, str) and lexc.startswith("foreign:"):
+            # a rejected call: the outcome carries the CircuitOpenError the library created
+            return ("raised", lexc.split(":", 1)[1])
         if cause == "result" or reason == "SCHEDULED":
             return ("exhausted", reason, attempts, lk, lexc, lres, nxt)
         if cause == "exception":
